@@ -227,14 +227,14 @@ class Statement(object):
             min_size += self.code_pkg.size + 1
 
         if positive_range:
-            if min_size <= 127 and max_size <= 127:
+            if max_size <= 127:
                 self.code_pkg.size += 1
                 self.code_pkg.max_size = self.code_pkg.size
                 self.pcr_size_hint = 2
                 self.fixed_size = True
                 raw_post_byte |= self.code_pkg.post_byte_choices[0]
                 self.code_pkg.post_byte = NumericValue(raw_post_byte)
-            elif min_size > 127 and max_size > 127:
+            else:
                 self.code_pkg.size += 2
                 self.code_pkg.max_size = self.code_pkg.size
                 self.pcr_size_hint = 4
@@ -242,14 +242,14 @@ class Statement(object):
                 raw_post_byte |= self.code_pkg.post_byte_choices[1]
                 self.code_pkg.post_byte = NumericValue(raw_post_byte)
         else:
-            if min_size <= 128 and max_size <= 128:
+            if max_size <= 128:
                 self.code_pkg.size += 1
                 self.code_pkg.max_size = self.code_pkg.size
                 self.pcr_size_hint = 2
                 self.fixed_size = True
                 raw_post_byte |= self.code_pkg.post_byte_choices[0]
                 self.code_pkg.post_byte = NumericValue(raw_post_byte)
-            elif min_size > 128 and max_size > 128:
+            else:
                 self.code_pkg.size += 2
                 self.code_pkg.max_size = self.code_pkg.size
                 self.pcr_size_hint = 4
